@@ -14,7 +14,7 @@
 (* res = "panic" is explained by no action: a map does not panic.             *)
 EXTENDS ColumnMap, TraceBase
 
-tvars == <<m, fills, l, sid, used>>
+tvars == <<m, fills, l, sid, used, failed>>
 
 RunRows(rn) == {rn[1] + j * rn[3] : j \in 0..(rn[2] - 1)}
 
@@ -43,6 +43,7 @@ ListsRow(o, r) == \E i \in DOMAIN o.keys : o.keys[i][1] = r
 TInit == CInit /\ TBInit
 
 T_Reset == ResetBook /\ m' = <<>> /\ fills' = <<>>
+T_Fail == FailBook /\ m' = <<>> /\ fills' = <<>>
 T_Fill == /\ IsEv("Fill") /\ Ev.res = "ok"
           /\ Fill(Ev.key, Ev.lo, Ev.n, Ev.step, Ev.kind)
           /\ ObsOK(Ev.obs) /\ Same
@@ -61,6 +62,6 @@ T_ClearRow == /\ IsEv("ClearRow") /\ Ev.res = "ok"
               /\ ObsOK(Ev.obs) /\ Same
 T_Scan == IsEv("Scan") /\ UNCHANGED cvars /\ ObsOK(Ev.obs) /\ Same
 
-TNext == T_Reset \/ T_Fill \/ T_Set \/ T_Remove \/ T_ClearRow \/ T_Scan
+TNext == T_Fail \/ T_Reset \/ T_Fill \/ T_Set \/ T_Remove \/ T_ClearRow \/ T_Scan
 TSpec == TInit /\ [][TNext]_tvars
 =============================================================================
